@@ -365,6 +365,13 @@ def run(rep, ix, tier):
     from . import C10
     C10.check_pred(rep, ix)
     rep.floor('R-C10-PRED', 8)
+    # ... and every value in a data row must stay separated from its neighbour however wide it prints
+    C10.check_rows(rep, ix)
+    rep.floor('R-C10-SEP', 4)
+    # the RP66V1 gate recognises every conformant storage unit label (rule of C20 / C01)
+    from . import C20
+    C20.check_sul(rep, ix)
+    rep.floor('R-C20-SUL', 4)
     # one LAS file per log pass needs every log pass of a BIT file to reach the list the converter iterates: rule of C13
     from . import C13
     C13.check_passes(rep, ix)
